@@ -11,7 +11,7 @@ text the decoder makes of the record's serialized message (`printRecs`), and the
 import QbVerif.Props.C15
 
 namespace QbVerif.C15
-open QbVerif.Ring QbVerif.Dump QbVerif.Gen QbVerif.DumpLemmas
+open QbVerif.Ring QbVerif.Dump QbVerif.Gen QbVerif.DumpLemmas QbVerif.RingLemmas
 
 /-- what `_blackbox_vlogger` guarantees about a record it stores -/
 structure RecOk (r : Rec) : Prop where
@@ -189,9 +189,65 @@ theorem printRecord_encode {σ : Type} (page : Nat) (newfmt : Bool) (D : Decoder
   unfold decodeAndPrint
   dsimp only [Cfg.repaired]
   rw [hmsg, hall, hdrop, hns, le32_toLe32 _ h.lineno, le32_toLe32 _ h.tags, le64_toLe64 _ h.sec]
-  simp only [Bool.not_true, Bool.false_and, Bool.false_eq_true, if_false, hd1]
   rw [show ([0] : List Nat) ++ (toLe64 r.sec ++ ((if newfmt = true then toLe64 r.nsec else []) ++
         (toLe32 r.msg.length ++ (r.msg ++ rest)))) = 0 :: (toLe64 r.sec ++ ((if newfmt = true then toLe64 r.nsec else []) ++
         (toLe32 r.msg.length ++ (r.msg ++ rest)))) from rfl, cstr_app _ _ h.fnnz]
+  simp only [Bool.not_true, Bool.false_and, Bool.false_eq_true, if_false, if_true]
+  exact if_neg hd1
+
+/-- **C15, round-trip clause (record level).**  The printer's loop over the chunks that are the
+    encodings of well-formed records `recs` (any number, any field values, either dump format)
+    prints exactly one line per record, in order, carrying the record's priority name, seconds and
+    milliseconds, function, line number, tags and the decoder's text of its message — no
+    diagnostic, no early exit — and ends with -EIO (the result after the last record) with the
+    ring released.  Old-format dumps: a record whose serialized message is a single byte (an
+    empty format string) fails the printer's `fn_size + BB_MIN_ENTRY_SIZE` test, hence the
+    side condition `newfmt = true ∨ 2 ≤ msg.length`. -/
+theorem records_roundtrip {σ : Type} (page : Nat) (newfmt : Bool) (D : Decoder σ) (hD : DecoderOk D) :
+    ∀ (recs : List Rec) (s : σ) (buf out : List Nat),
+      (∀ r ∈ recs, RecOk r ∧ (newfmt = true ∨ 2 ≤ r.msg.length)) →
+      printChunks (Cfg.repaired page) newfmt D s (recs.map (encodeRecord newfmt)) buf out =
+        ((printRecs newfmt D s recs out).1, ⟨.rc EIO, (printRecs newfmt D s recs out).2, true⟩)
+  | [], s, buf, out, _ => rfl
+  | r :: rs, s, buf, out, h => by
+    have hr := h r (by simp)
+    have hlen := encode_length newfmt r
+    have hT : (if newfmt = true then BB_SIZEOF_TIMESPEC else BB_SIZEOF_TIME_T) = 16 ∨
+        (if newfmt = true then BB_SIZEOF_TIMESPEC else BB_SIZEOF_TIME_T) = 8 := by
+      cases newfmt <;> simp [BB_SIZEOF_TIMESPEC, BB_SIZEOF_TIME_T]
+    have hfits := hr.1.fits
+    have hfn := hr.1.fnpos
+    have hmp := hr.1.mpos
+    have hcb : CHUNK_BUF = 1024 := rfl
+    have hmin : BB_MIN_ENTRY_SIZE = 27 := rfl
+    rw [List.map_cons, printChunks, if_neg (by omega)]
+    dsimp only
+    rw [printRecord_encode page newfmt D hD s r hr.1 hr.2]
+    dsimp only
+    rw [if_pos (by omega)]
+    exact records_roundtrip page newfmt D hD rs _ _ _ (fun r' hr' => h r' (by simp [hr']))
+
+/-- **C15, round-trip clause, end to end in the model**: printing the dump of a ring whose abstract
+    FIFO content is the encodings of the well-formed records `recs` (every state the blackbox
+    reaches by logging them; oldest retained record first) prints exactly those records. -/
+theorem dump_records_roundtrip {σ : Type} (page : Nat) (hp : 0 < page) (D : Decoder σ) (hD : DecoderOk D) (s : σ)
+    (newfmt : Bool) (r : Rb) (recs : List Rec) (TR : Nat) (h : Inv r (recs.map (encodeRecord newfmt)) TR)
+    (hpg : (4 * r.W) % page = 0) (hbig : CHUNK_BUF ≤ 4 * r.W)
+    (hrecs : ∀ x ∈ recs, RecOk x ∧ (newfmt = true ∨ 2 ≤ x.msg.length)) :
+    printFromFile (Cfg.repaired page) D s (dump newfmt r) =
+      ((printRecs newfmt D s recs []).1, ⟨.rc EIO, (printRecs newfmt D s recs []).2, true⟩) := by
+  rw [dump_roundtrip page hp D s newfmt r _ TR h hpg hbig]
+  exact records_roundtrip page newfmt D hD recs s _ [] hrecs
+
+/-- non-vacuity: a record as the logger stores it -/
+example : RecOk ⟨42, 1, 6, str "main", 1700000000, 5000000, str "hello %d" ++ [0, 7, 0, 0, 0]⟩ :=
+  ⟨by decide, by decide, by decide, by decide, by decide, by decide, by decide, by decide, by decide⟩
+
+/-- what the specification prints for that record (decoder answering "hello 7") -/
+theorem test_printRecs_line :
+    (printRecs true (⟨fun s _ => (s, ⟨str "hello 7", 8⟩)⟩ : Decoder Unit) ()
+      [⟨42, 1, 6, str "main", 1700000000, 5000000, str "hello %d" ++ [0, 7, 0, 0, 0]⟩] []).2 =
+      str "info    1700000000.005 main(42):1: hello 7\n" := by
+  decide +kernel
 
 end QbVerif.C15
